@@ -103,7 +103,7 @@ TAG = "rs2lean_search"
 # functions of `impl Searcher` translated here, in dependency order
 FUNCTIONS = ["calculate_extension_depth", "quiescence_search", "analyze_recursive"]
 # the other functions of `impl Searcher` (named, so that a NEW fn in the block is a broken tie)
-NOT_TRANSLATED = {"new": "constructor", "analyze": "threads / channels", "analyze_iterative": "stage 4a target 3, not reached",
+NOT_TRANSLATED = {"new": "constructor", "analyze": "threads / channels", "analyze_iterative": "only its `for` loop, as a fragment: stage 4c below",
                   "perft": "perft driver", "perft_recursive": "perft recursion"}
 # cells of the search monad: parameter name -> (mode, Rust type)
 CELLS = {"nodes_searched": ("refmut", "usize"), "rng": ("refmut", "ChaCha8Rng"),
